@@ -37,6 +37,7 @@ fn extract_bracket_expr(pattern: &str) -> Option<(String, &str)> {
     // literally.
 
     let mut expr = "[".to_string();
+    let mut closed = false;
 
     let mut chars = pattern.chars();
     let mut next = chars.next();
@@ -85,6 +86,11 @@ fn extract_bracket_expr(pattern: &str) -> Option<(String, &str)> {
                     let close = [delim, ']'];
                     let end = rest[1..].find(close.iter().collect::<String>().as_str())? + 3;
                     expr.push_str(&rest[..end]);
+                    if &rest[..end] == ":punct:]" {
+                        // The regex engine's class has the Unicode punctuation
+                        // only; in POSIX these symbols belong to it as well.
+                        expr.push_str("$+<=>^`|~");
+                    }
                     chars = rest[end..].chars();
                 }
             }
@@ -95,6 +101,7 @@ fn extract_bracket_expr(pattern: &str) -> Option<(String, &str)> {
                 //        expression, unless it appears in a collating symbol (such as "[.].]" ) or is
                 //        the ending <right-square-bracket> for a collating symbol, equivalence class,
                 //        or character class.
+                closed = true;
                 break;
             }
             _ => {}
@@ -103,7 +110,9 @@ fn extract_bracket_expr(pattern: &str) -> Option<(String, &str)> {
         next = chars.next();
     }
 
-    if parse_bre(&expr, RegexOptions::REGEX_OPTION_NONE).is_ok() {
+    // Without the closing bracket the '[' is not matched (the regex engine,
+    // which reads "[.a.]" differently, might still find an end for it).
+    if closed && parse_bre(&expr, RegexOptions::REGEX_OPTION_NONE).is_ok() {
         Some((expr, chars.as_str()))
     } else {
         None
